@@ -60,6 +60,9 @@ def plan(tier, seed):
             shards.append(("bfs", kind, mt, tier))
             shards.append(("twice", kind, mt, tier))
         shards.append(("bfs", kind, "log_squared_euclidean", tier, "nonfinite"))
+        # caller matrices in non-native byte order (as read from a big-endian file); jaccard is the
+        # metric that accepts them
+        shards.append(("bfs", kind, "jaccard", tier, "bigendian"))
     return shards
 
 
@@ -233,7 +236,10 @@ def run_history(name, vs, hist):
     fn = D.DISTANCES[name]
     refs = pristine_refs(name, vs)
     restore_module_state()        # every history starts from the state right after import
-    pool = [np.array(v, dtype=float) for v in vs]
+    # the caller keeps its vectors as the rows of ONE matrix (as the models do): what lies in memory
+    # right after a vector is the next vector, which the caller may overwrite
+    P = np.array(vs, dtype=float)
+    pool = [P[i] for i in range(len(vs))]
     cur = list(range(len(vs)))
     for step, op in enumerate(hist):
         if len(op) == 2:
@@ -354,6 +360,7 @@ DATA = {
 
 
 NONFINITE = [False]
+BIGENDIAN = [False]
 TINY_NEGATIVE = 0.3 - 0.2 - 0.1        # -2.78e-17: what is left of "zero" after ordinary arithmetic
 SIGNED_OK = None
 
@@ -362,6 +369,9 @@ def make_world(seed, metric=None):
     sc = [1.0, 0.5, 2.0, 3.0][seed % 4] if seed else 1.0
     w = {k: (np.array(v, dtype=float) * sc if k.startswith("X") else np.array(v, dtype=int))
          for k, v in DATA.items()}
+    if BIGENDIAN[0]:
+        for k in ("X", "Xu", "Xv", "Xq"):
+            w[k] = w[k].astype(">f8")
     if NONFINITE[0]:
         # prediction-side matrices may hold non-finite entries; they belong to the caller all the same
         w["Xq"][1, 0] = np.inf
@@ -496,7 +506,8 @@ def run_ops(kind, metric, seed, hist, tmpdir, check=True, refs=None):
 
 def shard_bfs(shard, seed, res):
     _, kind, metric, tier = shard[:4]
-    NONFINITE[0] = len(shard) > 4
+    NONFINITE[0] = len(shard) > 4 and shard[4] == "nonfinite"
+    BIGENDIAN[0] = len(shard) > 4 and shard[4] == "bigendian"
     tmpdir = tempfile.mkdtemp(prefix="c07-", dir=scratch_dir())
     try:
         # pristine references: value of each op after the minimal prerequisite
@@ -527,7 +538,8 @@ def shard_bfs(shard, seed, res):
                 if prob:
                     res.violations.append(viol("model-history",
                                                {"part": "bfs", "kind": kind, "metric": metric,
-                                                "history": h2, "seed": seed, "nonfinite": NONFINITE[0]},
+                                                "history": h2, "seed": seed, "nonfinite": NONFINITE[0],
+                                                "bigendian": BIGENDIAN[0]},
                                                prob, "%s: %s" % (kind, sym)))
                     if res.full:
                         return
@@ -670,6 +682,7 @@ def shard_twice(shard, seed, res):
 def run(shard, seed):
     res = Result()
     NONFINITE[0] = False
+    BIGENDIAN[0] = False
     if shard[0] == "hist":
         shard_hist(shard, seed, res)
     elif shard[0] == "bfs":
@@ -680,6 +693,12 @@ def run(shard, seed):
 
 
 def replay(case):
+    NONFINITE[0] = False
+    BIGENDIAN[0] = False
+    return _replay(case)
+
+
+def _replay(case):
     p = case["program"]
     NONFINITE[0] = False
     seed = int(p.get("seed", 0))
@@ -694,6 +713,7 @@ def replay(case):
         if p["part"] == "bfs":
             kind, metric, hist = p["kind"], p["metric"], p["history"]
             NONFINITE[0] = bool(p.get("nonfinite"))
+            BIGENDIAN[0] = bool(p.get("bigendian"))
             refs = {}
             op = hist[-1]
             pre = ["fit"] if op in NEEDS_FIT else []
